@@ -70,4 +70,14 @@ package bfe_bufio
 //@   ensures[wf] wfR(b)
 //@   ensures[counter_equals_bytes_delivered] b.TotalRead == old(b.TotalRead) + len(line)
 //@   ensures[line_ends_with_delimiter_when_no_error] err == nil ==> len(line) >= 1 && line[len(line)-1] == delim
+//@   ensures[error_returns_everything_buffered] err != nil ==> b.r == b.w && b.r >= len(line)
 //@   loop 1 invariant wfR(b) && b.TotalRead == old(b.TotalRead)
+
+//@ func (*Reader).ReadLine
+//@   props C22
+//@   nopanic
+//@   requires wfR(b) && 0 <= b.TotalRead && b.TotalRead <= 4611686018427387904
+//@   modifies b.r, b.w, b.err, b.TotalRead, b.buf[..]
+//@   ensures[wf] wfR(b)
+//@   ensures[partial_line_counter_equals_bytes_delivered] isPrefix ==> b.TotalRead == old(b.TotalRead) + len(line)
+//@   ensures[full_line_counter_is_line_plus_terminator] !isPrefix ==> old(b.TotalRead) + len(line) <= b.TotalRead && b.TotalRead <= old(b.TotalRead) + len(line) + 2
